@@ -36,7 +36,8 @@ KINDS = ['hit', 'ctx', '404', '405', 'fall', 'exc', 'redir', 'hit2', 'app2', 'q4
 # whose endpoint appends to the list it was given; e404h / e405j = error responses negotiated for different Accept
 # headers.  For these pairs every execution is preceded by one sequential request of the first thread's kind.
 EXTRA_KINDS = ['star', 'e404h', 'e405j', 'cklogin', 'cklogout', 'tabget', 'tabpost', 'jsonpa', 'jsonpb', 'jsonp0',
-               'gza', 'gzb', 'sta', 'stb']
+               'gza', 'gzb', 'sta', 'stb', 'devhit', 'dev404']
+# devhit / dev404: like hit / 404, the environ built by one (threaded) server object of clastic's development server
 # gza / gzb: two compressible bodies through one GzipMiddleware instance (compared after decompression)
 # sta / stb: two files, both in the second directory of one StaticApplication's search path
 # jsonpa / jsonpb / jsonp0: one route rendered by one JSONPRender, asked for with callback A, callback B, none
@@ -48,7 +49,7 @@ EXTRA_PAIRS = [('star', 'star'), ('star', 'hit'), ('star', '404'), ('e404h', 'e4
                ('e404h', 'e404h'), ('e404h', '404'), ('e405j', 'exc'), ('e405j', 'q405'),
                ('cklogout', 'cklogin'), ('cklogin', 'cklogout'), ('cklogin', 'cklogin'),
                ('tabget', 'tabpost'), ('tabpost', 'tabget'), ('jsonpa', 'jsonpb'), ('jsonpa', 'jsonp0'), ('jsonp0', 'jsonpb'),
-               ('gza', 'gzb'), ('gza', 'gza'), ('sta', 'stb')]
+               ('gza', 'gzb'), ('gza', 'gza'), ('sta', 'stb'), ('devhit', 'devhit'), ('devhit', 'dev404')]
 # app2: served by a second Application; q405/qpost: a path with a GET-only and a POST-only route
 
 
@@ -199,6 +200,8 @@ class World(object):
     def request_for(self, kind, tok):
         q = 'v=' + tok
         h = {'X-Tok': tok, 'Host': tok + '.example'}       # every request names its own host
+        if kind in ('devhit', 'dev404'):
+            return ({'devhit': '/a/', 'dev404': '/zz/'}[kind] + tok, 'GET', q, h)
         if kind == 'star':
             return ('/docs', 'GET', q, h)
         if kind in ('gza', 'gzb'):
@@ -228,7 +231,12 @@ class World(object):
 
     def serve(self, kind, tok):
         path, method, q, h = self.request_for(kind, tok)
-        res = wsgi.call(self.app2 if kind == 'app2' else self.app, path, method, query=q, headers=h)
+        if kind.startswith('dev'):
+            if getattr(self, '_dev', None) is None:
+                self._dev = wsgi.DevServer(self.app, threaded=True)
+            res = wsgi.call(self.app, None, environ=self._dev.environ(path, method, q, headers=h))
+        else:
+            res = wsgi.call(self.app2 if kind == 'app2' else self.app, path, method, query=q, headers=h)
         if res.headers and res.header('Content-Encoding') == 'gzip':
             import gzip as _gz
             try:
